@@ -4,6 +4,7 @@ from __future__ import annotations
 import ast
 
 from ..cfg import CFG
+from ..core import ordkey
 from ..core import (AnalysisError, DefRef, NotConst, Ref, call_name, calls_in, dotted, enclosing_function, func_params, get_kw,
                     norm, qualname_of, walk_no_nested)
 from ..shapes import Shapes, fmt, list_depths
@@ -348,8 +349,8 @@ def run(ctx):
                              and c.args and norm(c.args[0]) == saved_var for c in restore) or any(
             isinstance(s0, ast.Assign) and norm(s0.value) == saved_var and any(norm(tt) == gname for tt in s0.targets) for s0 in t.finalbody)
         fin_exits = [n for s0 in t.finalbody for n in ast.walk(s0) if isinstance(n, (ast.Return, ast.Yield, ast.YieldFrom))]
-        save_first = ccfg.dominates(ccfg.node_of(save[0]).id, ccfg.node_of(t.body[0]).id) and save[0].lineno < t.lineno
-        override_after_save = all(c.lineno > save[0].lineno for c in calls_in(cmgr) if call_name(c) == setter.name)
+        save_first = ccfg.dominates(ccfg.node_of(save[0]).id, ccfg.node_of(t.body[0]).id) and ordkey(save[0]) < ordkey(t)
+        override_after_save = all(ordkey(c) > ordkey(save[0]) for c in calls_in(cmgr) if call_name(c) == setter.name)
         ok_struct = bool(in_body and restores_saved and not fin_exits and save_first and override_after_save and not t.handlers)
         why = ("yield is not inside the try body" if not in_body else "finally does not re-install the saved value" if not restores_saved else
                "finally contains return/yield" if fin_exits else "the previous value is not saved before the override" if not (save_first and override_after_save)
